@@ -480,13 +480,13 @@ Proof.
   destruct (in_bounds (Z.to_N len) (Z.to_N off) (N.of_nat (length d))) eqn:B; [|discriminate].
   intro H. inversion H; subst s'; clear H.
   unfold in_bounds in B. apply andb_true_iff in B as [_ B].
-  set (bs := repeat (Z.to_N v) (Z.to_nat len)).
+  set (bs := (repeat (Z.to_N v) (Z.to_nat len) : list byte)).
   assert (Hbs : length bs = Z.to_nat len) by apply repeat_length.
   exists d, (splice d (Z.to_N off) bs). split; [reflexivity|].
   split; [apply get_buf_set_eq; eapply get_buf_lt; exact Hd|].
   assert (Hb : (N.to_nat (Z.to_N off) + length bs <= length d)%nat) by lia.
   unfold splice. split; [apply splice_length; exact Hb|]. split.
   - intros i Hi. replace (Z.to_nat off) with (N.to_nat (Z.to_N off)) by lia.
-    rewrite nth_splice_inside; [|exact Hb|rewrite Hbs; exact Hi]. unfold bs. apply nth_error_repeat. exact Hi.
+    rewrite nth_splice_inside by first [exact Hb | (rewrite Hbs; exact Hi) | (unfold bs; rewrite repeat_length; exact Hi) | lia]. unfold bs. apply nth_error_repeat. exact Hi.
   - intros j Hj. apply nth_splice_outside; [exact Hb|]. lia.
 Qed.
